@@ -31,7 +31,7 @@ BOUNDS = {
     "thorough": dict(diagonal_n=[2, 3, 4], lu_n=[2, 3, 4], lu_perms="all (n<=3), 5 of 24 (n=4)", cholesky_n=[2, 3, 4], ldl_n=[2, 3, 4],
                      ldl_perms="all (n<=3), 3 of 24 (n=4)", ldl_block="n=2, n=3 (1+2, 2+1), n=4 (2+2)", qr_n=[2], sparse_lu_n=[2, 3, 4],
                      precond_n=[2, 3, 4], auto_n=[2, 3], auto_overrides=["none", "all", "herm", "sym"], cg_n=2, cg="as quick + maxit 2 complex, recursive branch with identity/Jacobi, block of 2 right-hand sides",
-                     orth="2 and 3 vectors of length 3", multigrid=["2x2", "4x2", "2x2x2", "4x4", "2x2x4"],
+                     orth="2 and 3 real vectors of length 3 (QR pre-image: all 3 x k matrices; exactly dependent second column for k = 2)", multigrid=["2x2", "4x2", "2x2x2", "4x4", "2x2x4"],
                      multigrid_ndof=[1, 2, 3], rhs_shapes=["(n,)", "(n,1)", "(n,2)"], trans=["N", "T", "H"],
                      data=["real", "complex", "real matrix / complex rhs"]),
 }
@@ -40,7 +40,8 @@ OUTSIDE = ["that CG / multigrid converge (iteration counts, conditioning); only 
            "dtype / precision of the returned arrays (only the real/complex content is tracked)",
            "Pardiso / CHOLMOD (scikit-sparse) / cvxopt wrappers (libraries absent in this environment)",
            "SolverDenseQR beyond n = 2 and for non-square matrices",
-           "ILU (inexact by design; spilu is not modelled)", "GeometricMultigrid.solve (a V-cycle is an approximation by design)",
+           "ILU (inexact by design; spilu is not modelled)", "orth() on complex vectors and on more than 3 vectors (it is executed "
+           "inside CG for single complex columns only)", "GeometricMultigrid.solve (a V-cycle is an approximation by design)",
            "inputs on which the code divides by zero (zero pivots, zero diagonal entries, zero right-hand-side or residual "
            "columns in CG/orth): the symbolic run restricts every path to non-zero divisors",
            "matrix sizes beyond the bound, IEEE rounding, the tolerances of np.allclose in the matrix classification "
@@ -998,25 +999,78 @@ def _any_true(conds):
 
 
 # ------------------------------------------------------------------------------------------------
+def _orth_input(V, cfg):
+    """QR pre-image of the input of orth(): u := Q[:, :k] @ T with Q a rationally parametrised orthogonal 3x3 matrix (unit
+    quaternion (a,b,c,d), all of SO(3); `flip` negates the last column: O(3) \\ SO(3)) and T upper triangular with a
+    non-negative diagonal - every real 3 x k matrix has this form.  Returns (u, list of the diagonal entries of T)."""
+    k = cfg["k"]
+    a, b, c, d = (V.real("q_%s" % nm, default=df) for nm, df in (("a", 1.0), ("b", 0.5), ("c", -0.25), ("d", 0.75)))
+    N = a * a + b * b + c * c + d * d
+    if V.symbolic:
+        V.assume(N > 0, "orth: quaternion parameters not all zero")
+    Q = [[(a * a + b * b - c * c - d * d) / N, 2 * (b * c - a * d) / N, 2 * (b * d + a * c) / N],
+         [2 * (b * c + a * d) / N, (a * a - b * b + c * c - d * d) / N, 2 * (c * d - a * b) / N],
+         [2 * (b * d - a * c) / N, 2 * (c * d + a * b) / N, (a * a - b * b - c * c + d * d) / N]]
+    if cfg.get("flip"):
+        for i in range(3):
+            Q[i][2] = -Q[i][2]
+    T = [[0] * k for _ in range(k)]
+    diag = []
+    for i in range(k):
+        for j in range(i, k):
+            if i == j:
+                if i == 0 or not cfg.get("dependent_ok", k == 2):
+                    T[i][j] = V.real("T_%d_%d" % (i, j), positive=True, default=1.5 + 0.25 * i)
+                else:
+                    T[i][j] = V.real("T_%d_%d" % (i, j), lo=0, default=0.75)      # 0: linearly dependent column
+                diag.append(T[i][j])
+            else:
+                T[i][j] = V.real("T_%d_%d" % (i, j), default=0.5 - 0.25 * i)
+    u = np.empty((3, k), dtype=object if V.symbolic else float)
+    for r_ in range(3):
+        for j in range(k):
+            tot = 0
+            for i in range(min(j, k - 1) + 1):
+                tot = tot + Q[r_][i] * T[i][j]
+            u[r_, j] = tot
+    return _fin(V, u), diag
+
+
 def sc_orth(V, P, cfg):
     """orth(u, normalize=True): orthonormal columns spanning the input columns (up to the zero_rtol test)."""
     from pymoto.solvers.iterative import orth
-    m, k, cplx = 3, cfg["k"], cfg["ac"]
-    u = V.cplxs("u", (m, k)) if cplx else V.reals("u", (m, k))
+    k = cfg["k"]
+    u, roots = _orth_input(V, cfg)
     rtol = V.const("1e-15")
+    restore = None
     if V.symbolic:
-        for s2 in _sqnorm_cols(u):
-            V.assume(s2 > 0, "orth: no zero input column (the code divides by its squared norm)")
-    v = orth(u.copy(), normalize=True, zero_rtol=rtol)
-    obs = dict(ncols=np.shape(v)[1], vabs=None)
+        from symx import npshim
+        from symx.decide import quick_equal
+        orig_sqrt = npshim.OVERRIDES["sqrt"]
+
+        def sqrt_preimage(x, *a, **kw):
+            if isinstance(x, R) and x.q is None:
+                for cand in roots:
+                    if isinstance(cand, R) and quick_equal(cand * cand, x):
+                        V.c.stubs.add("np.sqrt (pre-image: returns the registered non-negative root after proving root^2 == argument)")
+                        return cand
+            return orig_sqrt(x, *a, **kw)
+        npshim.OVERRIDES["sqrt"] = sqrt_preimage
+        restore = orig_sqrt
+    try:
+        v = orth(u.copy(), normalize=True, zero_rtol=rtol)
+    finally:
+        if restore is not None:
+            npshim.OVERRIDES["sqrt"] = restore
+    obs = dict(ncols=np.shape(v)[1], v=v)
     if P is not None:
         v_ = np.asarray(v)
-        G = np.asarray(_conj(v_.T)) @ v_
+        G = v_.T @ v_
         I = np.array([[1 if i == j else 0 for j in range(v_.shape[1])] for i in range(v_.shape[1])], dtype=object)
-        P.arrays_eq("orth:V^H V==I", G, I, kind="orth:orthonormal")
+        P.arrays_eq("orth:V^T V==I", G, I, kind="orth:orthonormal")
         # span: the part of every input column outside span(V) is below the relative tolerance the code applied
         u_ = np.asarray(u)
-        proj = v_ @ (np.asarray(_conj(v_.T)) @ u_)
+        proj = v_ @ (v_.T @ u_)
         d2, u2 = _sqnorm_cols(u_ - proj), _sqnorm_cols(u_)
         for j in range(k):
             P.holds("orth:span[%d]" % j, d2[j] <= rtol * u2[j], kind="orth:span")
@@ -1261,9 +1315,9 @@ def items(tier):
     if not q:
         cg("N", "identity", True, 1, 1, "r", False, False, shape="c2")
         cg("N", "jacobi", False, 50, 2, "r", False, False)
-        for k in (2, 3):
-            add("orth", "k%d-r" % k, k=k, ac=False)
-        add("orth", "k2-c", k=2, ac=True)
+        add("orth", "k2-r", k=2)
+        add("orth", "k3-r", k=3)
+        add("orth", "k3-r-flip", k=3, flip=True)
     for mesh in b["multigrid"]:
         dims = [int(s) for s in mesh.split("x")] + [0]
         for ndof in b["multigrid_ndof"]:
@@ -1428,16 +1482,15 @@ def replay(cfg, label, env, case):
         return dict(reproduced=bool(bad), detail=dict(warned=warned, relative_residual=rel.tolist(), tol=tl, A=A.tolist(),
                                                       b=b.tolist(), x=x.tolist()))
     if kind == "orth":
-        from pymoto.solvers.iterative import orth
-        k, cplx = cfg["k"], cfg["ac"]
-        u = np.asarray(V.cplxs("u", (3, k)) if cplx else V.reals("u", (3, k)))
-        v = orth(u.copy(), normalize=True, zero_rtol=1e-15)
-        G = v.conj().T @ v
+        u, _roots = _orth_input(V, cfg)
+        u = np.asarray(u, dtype=float)
+        v = np.asarray(obs["v"], dtype=float)
+        G = v.T @ v
         e1 = float(np.max(np.abs(G - np.eye(v.shape[1]))))
-        d = u - v @ (v.conj().T @ u)
+        d = u - v @ (v.T @ u)
         e2 = float(np.max(np.linalg.norm(d, axis=0) / np.linalg.norm(u, axis=0)))
-        bad = e1 > 1e-8 if "V^H V" in label else (e2 > 1e-6 if "span" in label else False)
-        return dict(reproduced=bool(bad), detail=dict(orthonormality_error=e1, span_error=e2, u=np.asarray(u, dtype=complex).tolist()))
+        bad = e1 > 1e-8 if "V^T V" in label else (e2 > 1e-6 if "span" in label else False)
+        return dict(reproduced=bool(bad), detail=dict(orthonormality_error=e1, span_error=e2, u=u.tolist(), v=v.tolist()))
     if kind == "multigrid":
         Rd = np.asarray(obs["R"], dtype=float)
         if "rowsum" in label:
